@@ -21,6 +21,10 @@ VERIF = Path("/verif")
 REPO = Path(os.environ.get("VERIF_REPO", "/repo"))
 SRC = REPO / "src" / "grid"
 COQLIB = VERIF / "coq" / "lib"
+# runs against a scratch copy (VERIF_REPO, used for mutation tests) must not overwrite the evidence / replays of /repo itself
+ALT = str(REPO) != "/repo"
+EVID_DIR = VERIF / "build" / "evidence_alt" if ALT else VERIF / "evidence"
+REPLAY_ROOT = VERIF / "build" / "replays_alt" if ALT else VERIF / "replays"
 FORBIDDEN = re.compile(
     r"\b(Admitted|admit|Axiom|Parameter|Conjecture|Unset\s+Guard|bypass_check|Admit\s+Obligations|"
     r"Unset\s+Positivity|Unset\s+Universe)\b"
@@ -65,7 +69,7 @@ class Ctx:
         if self.build.exists():
             shutil.rmtree(self.build)
         self.build.mkdir(parents=True)
-        for old in (VERIF / "replays" / pid).glob(f"{tier}_*.json"):
+        for old in (REPLAY_ROOT / pid).glob(f"{tier}_*.json"):
             old.unlink()
         self.obligations: dict[str, dict] = {}  # name -> {file,status,axioms}
         self.failures: list[Failure] = []
@@ -398,7 +402,7 @@ class Ctx:
                 )
         violations = 0
         lines = []
-        rdir = VERIF / "replays" / self.pid
+        rdir = REPLAY_ROOT / self.pid
         seen_known = set()
         unmatched_obl = set()
         for f in self.failures:
@@ -456,8 +460,8 @@ class Ctx:
             "wall_s": round(time.time() - self.t0, 2),
             "violations": violations,
         }
-        (VERIF / "evidence").mkdir(exist_ok=True)
-        (VERIF / "evidence" / f"{self.pid}.json").write_text(json.dumps(ev, indent=1, default=str))
+        EVID_DIR.mkdir(parents=True, exist_ok=True)
+        (EVID_DIR / f"{self.pid}.json").write_text(json.dumps(ev, indent=1, default=str))
         if violations and self.logs:
             (self.build / "logs.json").write_text(json.dumps(self.logs, indent=1))
         if not self.keep and not violations:
